@@ -323,7 +323,9 @@ void run_cell(Desc const& D, vf::Case& cs)
                     if (c < D.cr_lo || c > D.cr_hi || s < D.cr_lo || s > D.cr_hi) { continue; }
                     i128 const ci = (i128)c, si = (i128)s;
                     if ((op == O_DIV_DS || op == O_MOD_DS) && si == 0) { continue; }
-                    i128 const res = op == O_DIV_DS ? ci / si : (op == O_MOD_DS ? ci % si : ci * si);
+                    i128 prod = 0;
+                    if (op != O_DIV_DS && op != O_MOD_DS && __builtin_mul_overflow(ci, si, &prod)) { continue; } // both factors can be close to 2^64
+                    i128 const res = op == O_DIV_DS ? ci / si : (op == O_MOD_DS ? ci % si : prod);
                     if ((ld)res < D.cr_lo || (ld)res > D.cr_hi || res > ((i128)1 << 64) || res < -((i128)1 << 64)) { continue; }
                     if ((op == O_DIV_DS || op == O_MOD_DS) && ((ld)(ci / si) < D.cr_lo || (ld)(ci / si) > D.cr_hi)) { continue; } // INT_MIN / -1 and INT_MIN % -1
                     cmp((Op)op, true, (ld)res);
